@@ -11,6 +11,11 @@ CHECKS = {
         technique="TLA+ refinement PipeRing=>Pipe checked by TLC; TLC transition-cover behaviours replayed lock-step into the real pipe via gate hooks; recorded hook traces validated by TLC against the contract (PipeTrace)",
         text="TLC proves on the as-implemented ring model (all interleavings, small constants) that the contract (FIFO, parks only when blocked, wake obligations, exact close/return rules) holds; the binding to the code is two-way: every transition of the model's state graph is driven through the real pipe in lock-step and every event recorded from lock-step and free-running executions is checked by TLC against the contract, invariants evaluated after each event.",
         note="Go runtime sync.Cond semantics; 5 s watchdog used only together with a contract state that owes a wake-up; lock-step uses alignment-unit sizes, byte-granular sizes only in free runs."),
+    "C18": dict(
+        level="model_checking", design="DESIGN.md 4/C18",
+        technique="TLA+ model of the ring log (Backlog.tla) with the contract as invariants checked by TLC; TLC-simulated behaviours replayed lock-step into the real backlog via gate hooks; recorded hook traces validated by TLC (BacklogTrace)",
+        text="TLC checks on the as-implemented ring model, for all interleavings of a writer and two readers with several wrap-arounds, that reads return exactly the ids written at the offset, invalid-offset is reported exactly when the offset is overwritten or ahead, readers wait only at the head of an open log and every write/close owes each waiting reader a wake-up; model behaviours are driven through the real backlog in lock-step and every recorded event of lock-step and free runs is checked by TLC against the contract.",
+        note="Go runtime sync.Cond semantics; behaviour after Close beyond waking waiters with an error is not constrained; lock-step uses alignment-unit sizes, byte-granular sizes only in free runs."),
 }
 
 NOT_YET = "check not built yet in this session (work in progress; see DESIGN.md section 7 for the order)"
